@@ -570,7 +570,7 @@ func ensureSet(t *State, b, k string) map[string]bool {
 
 func (s *State) evalSet(op prog.Op) Outcome {
 	m, exists := s.set(op.B, op.Key)
-	_, bucketExists := s.Set[op.B]
+	_ = op.B
 	// a set emptied by removals: Redis deletes the key, nutsdb keeps it
 	emptied := exists && len(m) == 0
 	switch op.K {
@@ -652,10 +652,7 @@ func (s *State) evalSet(op prog.Op) Outcome {
 		}
 		return val(EncSet(members(m)), nil)
 	case "scard":
-		if !exists {
-			if bucketExists {
-				return Outcome{Vals: []string{"0"}, ErrOK: true}
-			}
+		if !exists || emptied {
 			return Outcome{Vals: []string{"0"}, ErrOK: true}
 		}
 		return val(strconv.Itoa(len(m)), nil)
@@ -676,6 +673,7 @@ func (s *State) evalSet(op prog.Op) Outcome {
 		if !exists || !exists2 {
 			return Outcome{ErrOK: true, Any: true}
 		}
+		emptied2 := len(m2) == 0
 		var out []string
 		if strings.HasPrefix(op.K, "sdiff") {
 			for e := range m {
@@ -693,16 +691,29 @@ func (s *State) evalSet(op prog.Op) Outcome {
 			}
 			out = members(u)
 		}
+		if emptied || emptied2 {
+			// a set emptied by removals may have ceased to exist (Redis deletes it)
+			return Outcome{Vals: []string{EncSet(out)}, ErrOK: true}
+		}
 		return val(EncSet(out), nil)
 	case "smove1", "smove2":
 		b2 := op.B
 		if op.K == "smove2" {
 			b2 = op.B2
 		}
-		_, exists2 := s.set(b2, op.Key2)
-		if !exists || !exists2 {
+		m2, exists2 := s.set(b2, op.Key2)
+		if !exists || !exists2 || emptied {
 			// missing key/bucket: error (a "false" without effect is tolerated)
 			return Outcome{Vals: []string{"false"}, ErrOK: true}
+		}
+		if len(m2) == 0 && m[op.Val] {
+			// destination emptied by removals may have ceased to exist: moved, or refused
+			return Outcome{Vals: []string{"true"}, ErrOK: true, Effect: func(t *State) {
+				if src, ok := t.set(op.B, op.Key); ok {
+					delete(src, op.Val)
+				}
+				ensureSet(t, b2, op.Key2)[op.Val] = true
+			}}
 		}
 		if !m[op.Val] {
 			// non-member: state must not change; return value not judged
@@ -794,6 +805,16 @@ func ranksInside(n, start, end int) bool {
 }
 
 func (s *State) evalZSet(op prog.Op) Outcome {
+	o := s.evalZSet1(op)
+	if _, ok := s.ZSet[op.B]; ok && len(s.ZSet[op.B]) == 0 && op.K != "zadd" {
+		// a sorted set emptied by removals may have ceased to exist (Redis
+		// deletes empty keys; nutsdb forgets it once its records are merged away)
+		o.ErrOK = true
+	}
+	return o
+}
+
+func (s *State) evalZSet1(op prog.Op) Outcome {
 	_, bucketExists := s.ZSet[op.B]
 	ents := s.zsorted(op.B)
 	n := len(ents)
